@@ -392,7 +392,22 @@ func (s *Sim) IterStep(i int) {
 	case x < 85:
 		it := live[s.Rng.IntN(len(live))]
 		s.Logf("%s close %s", what, it.name)
-		if s.O.Ctl != nil && s.O.ForceGC && it.ownHandle && s.Rng.IntN(2) == 0 {
+		if s.O.Ctl != nil && it.ownHandle && s.Rng.IntN(3) == 0 {
+			// Close() held up before it gets the table lock while another iterator is registered on the same table and committed:
+			// whatever Close() computed before it had the lock must not undo that registration
+			pa := s.O.Ctl.PauseAt(s.Handle+"-it", "wtxn.beforeLock")
+			closed := make(chan struct{})
+			go func() { defer close(closed); it.it.Close() }()
+			for k := 0; k < 20000 && !pa.Reached(); k++ {
+				runtime.Gosched()
+			}
+			if pa.Reached() {
+				s.closeQueued++
+				s.createIterH(what+" (while a Close is queued)", t, s.Handle+"-it2")
+			}
+			pa.Resume()
+			<-closed
+		} else if s.O.Ctl != nil && s.O.ForceGC && it.ownHandle && s.Rng.IntN(2) == 0 {
 			// Fault enumeration of Close(): its commit (removal of the tracker) is paused before the root is published while the
 			// collector gets time for a round; whatever the collector saw, the closed iterator's deletions must be collected later.
 			pa := s.O.Ctl.PauseAt(s.Handle+"-it", "commit.beforeRootLock")
@@ -451,12 +466,14 @@ func (s *Sim) CloseIterators() {
 }
 
 // createIter creates a change iterator on t in a write transaction of its own (sometimes one that aborts).
-func (s *Sim) createIter(what string, t *simTable) {
-	if len(t.iters) >= 4 {
+func (s *Sim) createIter(what string, t *simTable) { s.createIterH(what, t, s.Handle+"-it") }
+
+func (s *Sim) createIterH(what string, t *simTable, handle string) {
+	if len(t.iters) >= 5 {
 		return
 	}
 	// (own DB handle: the tracker's later Close() commits under this name, so it can be paused without catching the collector)
-	wtxn := s.DB.NewHandle(s.Handle + "-it").WriteTxn(t.tbl)
+	wtxn := s.DB.NewHandle(handle).WriteTxn(t.tbl)
 	s.open = wtxn
 	it, err := t.tbl.Changes(wtxn)
 	if err != nil {
@@ -466,7 +483,7 @@ func (s *Sim) createIter(what string, t *simTable) {
 	}
 	s.iterSeq++
 	si := &simIter{name: fmt.Sprintf("%s#%d", t.name, s.iterSeq), it: it, table: t, creationRev: t.committed.Rev, createdIn: what,
-		replay: map[string]Obs{}, gotDelete: map[string][]uint64{}, ownHandle: true}
+		replay: map[string]Obs{}, gotDelete: map[string][]uint64{}, ownHandle: handle == s.Handle+"-it"}
 	if s.Rng.IntN(6) == 0 {
 		s.Logf("%s %s.Changes() in a transaction that aborts", what, t.name)
 		wtxn.Abort()
